@@ -233,7 +233,60 @@ pub open spec fn buffer_link(b: Option<&Box<BufferLink>>) -> Option<Box<BufferLi
 pub open spec fn rev_concat(s: Seq<&[u8]>) -> Seq<u8>
     decreases s.len()
 { if s.len() == 0 { Seq::empty() } else { s.last()@ + rev_concat(s.drop_last()) } }
+impl HtmlBodyVisitor {
+    pub open spec fn wf(&self) -> bool { match self { HtmlBodyVisitor::Append(a) => a.wf(), HtmlBodyVisitor::Prepend(p) => p.wf(), HtmlBodyVisitor::Replace(r) => r.wf() } }
+    pub open spec fn content(&self) -> Seq<char> { match self { HtmlBodyVisitor::Append(a) => a.content@, HtmlBodyVisitor::Prepend(p) => p.content@, HtmlBodyVisitor::Replace(r) => r.content@ } }
+    // enter never drops or reorders the start tag it is given: it returns it unchanged, or (prepend without selector) followed by the value
+    //@@ fn src/filter/html_body_action/mod.rs :: impl HtmlBodyVisitor / fn enter -> r
+    //@| requires old(self).wf(),
+    //@| ensures final(self).wf(), final(self).content() == old(self).content(),
+    //@|     r.3@ == data@ || (r.3@ == data@ + old(self).content() && *old(self) is Prepend),
+    //@|     r.1.is_some(),
+
+    // leave returns its input, the input with the value inserted (append/prepend), or the value (replace of a whole buffered element)
+    //@@ fn src/filter/html_body_action/mod.rs :: impl HtmlBodyVisitor / fn leave -> r
+    //@| requires old(self).wf(),
+    //@| ensures final(self).wf(), final(self).content() == old(self).content(),
+    //@|     r matches Ok(t) ==> (t.2@ == data@
+    //@|         || (*old(self) is Append && (t.2@ == old(self).content() + data@ || t.2@ == spec_append_child(data@, old(self).content())))
+    //@|         || (*old(self) is Prepend && t.2@ == spec_prepend_child(data@, old(self).content()))
+    //@|         || (*old(self) is Replace && t.2@ == old(self).content())),
+
+    //@@ fn src/filter/html_body_action/mod.rs :: impl HtmlBodyVisitor / fn first -> r
+    //@| requires self.wf(),
+}
+pub open spec fn link_matches(l: Option<Box<BufferLink>>, tag: Seq<char>) -> bool { l matches Some(b) && b.tag_name@ == tag }
+pub open spec fn link_prev(l: Option<Box<BufferLink>>) -> Option<Box<BufferLink>> { match l { Some(b) => b.previous, None => None } }
+pub open spec fn link_buf(l: Option<Box<BufferLink>>) -> Seq<char> { match l { Some(b) => b.buffer@, None => Seq::empty() } }
+
 impl HtmlFilterBodyAction {
+    pub open spec fn wf(&self) -> bool { self.visitor.wf() }
+
+    //@@ fn src/filter/html_filter_body.rs :: impl HtmlFilterBodyAction / fn new -> r
+    //@| requires visitor.wf(),
+    //@| ensures r.wf(), r.current_buffer.is_none(), r.last_buffer@.len() == 0, r.pending().len() == 0,
+
+    // routing of a start tag: the chain of held-back bytes is unchanged (a newly opened buffer is empty); the tag text comes back
+    // unchanged or followed by the inserted value
+    //@@ fn src/filter/html_filter_body.rs :: impl HtmlFilterBodyAction / fn on_start_tag_token -> r
+    //@| requires old(self).wf(),
+    //@| ensures final(self).wf(), final(self).current_buffer.is_none(), final(self).last_buffer == old(self).last_buffer,
+    //@|     chain_chars(r.0) == chain_chars(old(self).current_buffer),
+    //@|     r.1@ == data@ || r.1@ == data@ + old(self).visitor.content(),
+    //@|     final(self).visitor.content() == old(self).visitor.content(),
+    //@| entry proof { lit_empty(); }
+    //@| before `(self.current_buffer.take(), buffer)`: proof { if buffer_link_actions > 0 { let l = self.current_buffer.unwrap(); assert(l.buffer@ =~= Seq::<char>::empty()); assert(chain_chars(l.previous) + l.buffer@ =~= chain_chars(l.previous)); } }
+
+    // routing of an end tag: before the visitor edits it, (what stays held back) ++ (what comes back) == (what was held back) ++ (the tag text)
+    //@@ fn src/filter/html_filter_body.rs :: impl HtmlFilterBodyAction / fn on_end_tag_token -> r
+    //@| requires old(self).wf(),
+    //@| ensures final(self).wf(), final(self).last_buffer == old(self).last_buffer, final(self).visitor.content() == old(self).visitor.content(),
+    //@|     r matches Ok(t) ==> final(self).current_buffer.is_none() || link_matches(old(self).current_buffer, tag_name@),
+    //@|     r matches Ok(t) ==> chain_chars(t.0) == (if link_matches(old(self).current_buffer, tag_name@) { chain_chars(link_prev(old(self).current_buffer)) } else { chain_chars(old(self).current_buffer) }),
+    //@|     r matches Ok(t) ==> ({ let pre = if link_matches(old(self).current_buffer, tag_name@) { link_buf(old(self).current_buffer) + data@ } else { data@ };
+    //@|         t.1@ == pre || t.1@ == old(self).visitor.content() + pre || t.1@ == spec_append_child(pre, old(self).visitor.content())
+    //@|         || t.1@ == spec_prepend_child(pre, old(self).visitor.content()) || t.1@ == old(self).visitor.content() }),
+
     // everything consumed but not yet emitted, in stream order: buffered elements (outer to inner), then the unparsed tail
     pub open spec fn pending(&self) -> Seq<u8> { vstd::utf8::encode_utf8(chain_chars(self.current_buffer)) + self.last_buffer@ }
 
@@ -248,6 +301,96 @@ impl HtmlFilterBodyAction {
     //@|     decreases buffers@.len(),
     //@| loopend 1: proof { assert(buffers@.len() == 0); assert(to_return@ + Seq::<u8>::empty() =~= to_return@); }
     //@| loophead 1: proof { assert((to_return@ + bytes@) + rev_concat(buffers@) =~= to_return@ + (bytes@ + rev_concat(buffers@))); }
+}
+
+// ================================================================ chain (src/filter/filter_body.rs, src/filter/encoding/mod.rs) — C14 gating, C03 plumbing, C04 pass-through
+//@@ item src/http/header.rs :: struct Header
+// foreign to this unit (opaque): BodyFilter description (api), codec stages (flate2 / brotli)
+#[verifier::external_body] pub struct BodyFilter { x: u8 }
+#[verifier::external_body] pub struct EncodeFilterBody { x: u8 }
+#[verifier::external_body] pub struct DecodeFilterBody { x: u8 }
+//@@ item src/filter/encoding/mod.rs :: enum SupportedEncoding
+pub uninterp spec fn enc_kind(e: EncodeFilterBody) -> SupportedEncoding;
+pub uninterp spec fn dec_kind(d: DecodeFilterBody) -> SupportedEncoding;
+impl Clone for SupportedEncoding {
+    fn clone(&self) -> (r: Self) ensures r == *self { match self { SupportedEncoding::Brotli => SupportedEncoding::Brotli, SupportedEncoding::Gzip => SupportedEncoding::Gzip, SupportedEncoding::Deflate => SupportedEncoding::Deflate } }
+}
+impl EncodeFilterBody {
+    #[verifier::external_body] pub fn new(encoding: SupportedEncoding) -> (r: Self) ensures enc_kind(r) == encoding { unimplemented!() }
+}
+impl DecodeFilterBody {
+    #[verifier::external_body] pub fn new(encoding: SupportedEncoding) -> (r: Self) ensures dec_kind(r) == encoding { unimplemented!() }
+}
+//@@ item src/filter/filter_body.rs :: enum FilterBodyActionItem
+//@@ item src/filter/filter_body.rs :: struct FilterBodyAction
+
+pub assume_specification [str::to_lowercase] (s: &str) -> (r: std::string::String) ensures r@ == spec_lower(s@);
+pub uninterp spec fn spec_lower(s: Seq<char>) -> Seq<char>;
+pub assume_specification<'b> [<std::string::String as PartialEq<&str>>::eq] (a: &std::string::String, b: &&str) -> (r: bool) ensures r == (a@ == b@);
+
+// statement of C14: exactly br / gzip / deflate are supported
+pub open spec fn supported(enc: Seq<char>) -> Option<SupportedEncoding> {
+    if enc == "br"@ { Some(SupportedEncoding::Brotli) } else if enc == "gzip"@ { Some(SupportedEncoding::Gzip) } else if enc == "deflate"@ { Some(SupportedEncoding::Deflate) } else { None }
+}
+//@@ fn src/filter/encoding/mod.rs :: fn get_encoding_filters -> r
+//@| ensures r.is_some() == supported(encoding@).is_some(),
+//@|     r matches Some(p) ==> Some(dec_kind(p.0)) == supported(encoding@) && Some(enc_kind(p.1)) == supported(encoding@),
+//@| entry proof { lit_br(); lit_gzip(); lit_deflate(); axiom_str_ext(); }
+
+// inner stages built from the filter descriptions: FilterBodyActionItem::new is NOT under contract (closures over foreign visitors,
+// str::contains); assumed to be a function of (filter, content type)
+pub uninterp spec fn spec_item_new(filter: BodyFilter, content_type: Option<Seq<char>>) -> Option<FilterBodyActionItem>;
+pub open spec fn ostring(o: Option<String>) -> Option<Seq<char>> { match o { Some(s) => Some(s@), None => None } }
+impl FilterBodyActionItem {
+    //@@ fn src/filter/filter_body.rs :: impl FilterBodyActionItem / fn new -> r
+    //@| opt external_body
+    //@| opt stub
+    //@| ensures r == spec_item_new(filter, ostring(content_type)),
+}
+// last header value (lower-cased) whose lower-cased name is `name`
+pub open spec fn last_header(hs: Seq<Header>, name: Seq<char>) -> Option<Seq<char>>
+    decreases hs.len()
+{
+    if hs.len() == 0 { None } else if spec_lower(hs.last().name@) == name { Some(spec_lower(hs.last().value@)) } else { last_header(hs.drop_last(), name) }
+}
+pub open spec fn inner_chain(fs: Seq<BodyFilter>, ct: Option<Seq<char>>) -> Seq<FilterBodyActionItem>
+    decreases fs.len()
+{
+    if fs.len() == 0 { Seq::empty() } else {
+        let p = inner_chain(fs.drop_last(), ct);
+        match spec_item_new(fs.last(), ct) { Some(i) => p.push(i), None => p }
+    }
+}
+impl FilterBodyAction {
+    //@@ fn src/filter/filter_body.rs :: impl FilterBodyAction / fn is_empty -> r
+    //@| ensures r == (self.chain@.len() == 0),
+
+    // shape of the chain (C14): no inner stage -> empty; encoding absent -> inner stages; supported encoding -> Decode ++ inner ++ Encode of
+    // that encoding; unsupported encoding -> EMPTY chain (filtering disabled, body passes through)
+    //@@ fn src/filter/filter_body.rs :: impl FilterBodyAction / fn new -> r
+    //@| forlabel 0: it
+    //@| loop 0: invariant iter_ref_ok(it.history@, it.index@, it.snapshot@.remaining(), headers@),
+    //@|         ostring(content_type) == last_header(headers@.take(it.index@), "content-type"@),
+    //@|         ostring(content_encoding) == last_header(headers@.take(it.index@), "content-encoding"@),
+    //@| loophead 0: proof { let k = it.index@; assert(headers@.take(k + 1).drop_last() =~= headers@.take(k)); assert(headers@.take(k + 1).last() == headers@[k]); assert(*header == headers@[k]); }
+    //@| loopend 0: proof { assert(headers@.take(headers@.len() as int) =~= headers@); }
+    //@| forlabel 1: it
+    //@| loopbefore 1: let ghost fs = filters@; let ghost ct = ostring(content_type);
+    //@| loop 1: invariant iter_ok(it.history@, it.index@, it.snapshot@.remaining(), fs), ostring(content_type) == ct,
+    //@|         chain@ == inner_chain(fs.take(it.index@), ct),
+    //@| loophead 1: proof { let k = it.index@; assert(fs.take(k + 1).drop_last() =~= fs.take(k)); assert(fs.take(k + 1).last() == fs[k]); assert(filter == fs[k]); }
+    //@| loopend 1: proof { assert(fs.take(fs.len() as int) =~= fs); }
+    //@| ensures !r.in_error,
+    //@|     ({ let inner = inner_chain(filters@, last_header(headers@, "content-type"@)); let enc = last_header(headers@, "content-encoding"@);
+    //@|        if inner.len() == 0 { r.chain@.len() == 0 }
+    //@|        else { match enc {
+    //@|            None => r.chain@ == inner,
+    //@|            Some(e) => match supported(e) {
+    //@|                None => r.chain@.len() == 0,
+    //@|                Some(k) => r.chain@.len() == inner.len() + 2 && r.chain@.subrange(1, inner.len() as int + 1) == inner
+    //@|                    && (r.chain@[0] matches FilterBodyActionItem::Decode(d) && dec_kind(*d) == k)
+    //@|                    && (r.chain@[inner.len() as int + 1] matches FilterBodyActionItem::Encode(en) && enc_kind(*en) == k),
+    //@|            } } } }),
 }
 
 //@@ strlits
